@@ -260,6 +260,8 @@ class Ctx:
         self.tlc_runs.append({"module": module, "cfg": cfg, "distinct": r.states, "generated": r.generated,
                               "wall_s": round(r.wall, 2), "expect": expect,
                               "result": "violated:" + r.violated if r.violated else ("ok" if r.ok else "error")})
+        if r.rc == 124:
+            raise MachineryError(f"TLC {module}/{cfg} timed out")
         if expect == "ok" and not r.ok:
             raise MachineryError(f"TLC {module}/{cfg}: expected success, got violated={r.violated} error={r.error}\n"
                                  + r.out[-3000:])
